@@ -924,7 +924,40 @@ def r05_9(ctx, prog, crate):
     C15.r15_6(Renamed(ctx, "R05.9"), prog, crate)
 
 
+def r05_13(ctx, prog, crate):
+    """The allocation figures under a time are those of the sample that supplied it: a sample's snapshot is stored unless
+    *all* its tallies are zero - AllocOpMap::is_empty is `all` over the whole `values` array (every operation kind), and the
+    predicate accepts a tally only when count and size are both zero. A sample that only reallocates must keep its
+    snapshot."""
+    from lib.patheval import PathEval
+    b = prog.body("alloc::AllocOpMap::is_empty", crate)
+    if not ctx.anchor("R05.13", "AllocOpMap::is_empty", 1 if b else 0, 1):
+        return
+    ctx.saw(b)
+    sums = PathEval(b).run()
+    ok = bool(sums) and len(sums) == 1 and not sums[0].conds
+    r = sums[0].ret if ok else None
+    ok = ok and r[0] == "site" and r[1].rsplit("::", 1)[-1] == "all" and r[3] and r[3][0][0] == "site" and \
+        r[3][0][1].rsplit("::", 1)[-1] in ("iter", "into_iter") and r[3][0][3] and r[3][0][3][0] in (("sptr", (1, ("values",))), ("ptr", (1, ("values",))))
+    ctx.check(ok, "R05.13", ["is_empty", "all-over-every-operation-kind"],
+              "AllocOpMap::is_empty is not `self.values.iter().all(..)` over the whole array: a sample whose only operations are of a "
+              "kind it does not look at loses its allocation snapshot", b.where(0))
+    cl = [x for x in prog.children(b) if x.kind == "Closure"]
+    if ctx.check(len(cl) == 1, "R05.13", ["is_empty", "predicate"], "predicates: %d" % len(cl), b.where(0)):
+        ps = PathEval(cl[0]).run() or []
+        # paths that can answer true: a literal true, or a final `field == 0` comparison
+        t = [p_ for p_ in ps if p_.ret == ("int", 1) or (p_.ret[0] == "cmp" and p_.ret[1] == "Eq" and ("int", 0) in p_.ret[2:])]
+        fields = set()
+        for p_ in t:
+            for a, pol in list(p_.conds) + ([(p_.ret, True)] if p_.ret[0] == "cmp" else []):
+                if pol and a[0] in ("Eq", "cmp") and ("int", 0) in a:
+                    fields |= {f for f in ("count", "size") if "'%s'" % f in str(a)}
+        ctx.check(len(t) == 1 and fields == {"count", "size"}, "R05.13", ["is_empty", "zero-count-and-zero-size"],
+                  "the predicate answers true on %d paths looking at %s; expected exactly count == 0 && size == 0" % (len(t), sorted(fields)), cl[0].where(0))
+
+
 def run(ctx, prog, crate):
+    r05_13(ctx, prog, crate)
     r05_8(ctx, prog, crate)
     r05_9(ctx, prog, crate)
     r05_10(ctx, prog, crate)
